@@ -154,6 +154,9 @@ func runMWbits(f1, f2 []float64, lim, limT int, alt string, tags string) {
 	runMWf(f1, f2, fmt.Sprintf("enc=bits x1=%s x2=%s", bitsList(f1), bitsList(f2)), lim, limT, alt, tags)
 }
 
+// layoutHook, when set, supplies the actual argument slices (and the buffer they live in).
+var layoutHook func() (f1, f2, whole []float64)
+
 func runMWf(in1, in2 []float64, fields string, lim, limT int, alt string, tags string) {
 	id, ok := mine()
 	if !ok {
@@ -169,6 +172,16 @@ func runMWf(in1, in2 []float64, fields string, lim, limT int, alt string, tags s
 	stats.MannWhitneyExactLimit, stats.MannWhitneyTiesExactLimit = lim, limT
 	f1, f2 := append([]float64(nil), in1...), append([]float64(nil), in2...)
 	g1, g2 := in1, in2 // pristine copies: the call must not reorder its arguments
+	var whole, wholeCopy []float64
+	if layoutHook != nil {
+		// aliasing family: the arguments are windows of one caller buffer; the WHOLE buffer
+		// (other window, padding, spare capacity) must come back untouched
+		f1, f2, whole = layoutHook()
+		wholeCopy = append([]float64(nil), whole...)
+		if !sameBits(f1, g1) || !sameBits(f2, g2) {
+			panic("harness: layout does not reproduce the case's samples")
+		}
+	}
 	res, err := stats.MannWhitneyUTest(f1, f2, altVals[alt])
 	info, line := "", ""
 	if err != nil {
@@ -178,7 +191,7 @@ func runMWf(in1, in2 []float64, fields string, lim, limT int, alt string, tags s
 		line = fmt.Sprintf("res=ok n=%d,%d twoU=%s p=%s", res.N1, res.N2, twoU(res.U), dec(res.P))
 	}
 	kept := func() string {
-		if sameBits(f1, g1) && sameBits(f2, g2) {
+		if sameBits(f1, g1) && sameBits(f2, g2) && sameBits(whole, wholeCopy) {
 			return "kept"
 		}
 		return "mutated"
@@ -593,6 +606,9 @@ func main() {
 	//     one process; every answer must be the one the stateless specification gives for ITS case
 	historyFamily(rng)
 
+	// 4d. state and aliasing: limits flipped between calls; arguments as windows of one buffer
+	stateFamily(rng)
+
 	// 5. random samples up to and across the real limits, K ∈ {1,2,3,…}
 	nbig := hx.N(8, 60)
 	for i := 0; i < nbig; i++ {
@@ -660,6 +676,90 @@ func main() {
 			continue
 		}
 		runDist(n1, n2, T, tagOf(T, n1, n2, defLim, defLimT, "mid"))
+	}
+}
+
+// stateFamily (one process per block):
+//   * limit flips: the same pair under default limits, lowered limits, default again, raised limits,
+//     default again - the package variables are changed between calls in both directions;
+//   * aliasing: x1 and x2 as windows of ONE caller buffer - adjacent with spare capacity (x2 right
+//     behind x1 inside x1's capacity), adjacent with capacity clipped, x2 in front of x1, overlapping
+//     windows, the very same slice as both arguments - with padding before/after. The case's samples
+//     are the window contents; the result must be the specification's for those values (i.e. what the
+//     call on fresh copies gives) and the whole buffer must be left as it was (in=kept).
+func stateFamily(rng *hx.Rand) {
+	defer func() { pinShard = -1; layoutHook = nil }()
+	nb := hx.N(12, 120)
+	for b := 0; b < nb; b++ {
+		pinShard = 1000 + b
+		n1, n2 := 1+rng.Intn(6), 1+rng.Intn(6)
+		vals := 2 + rng.Intn(2*(n1+n2))
+		x1, x2 := make([]int, n1), make([]int, n2)
+		for i := range x1 {
+			x1[i] = rng.Intn(vals)
+		}
+		for i := range x2 {
+			x2[i] = rng.Intn(vals)
+		}
+		small, smallT := 1+rng.Intn(max(n1, n2)), rng.Intn(max(n1, n2))
+		for _, lm := range [][2]int{{defLim, defLimT}, {small, smallT}, {defLim, defLimT}, {2 * defLim, 2 * defLim}, {defLim, defLimT}} {
+			mwAuto(x1, x2, 1, lm[0], lm[1], "limitflip")
+		}
+	}
+	na := hx.N(60, 600)
+	for b := 0; b < na; b++ {
+		pinShard = 2000 + b
+		// buffer: pad | A | gap | B | pad, windows may be adjacent (gap 0) or overlap (negative gap)
+		n1, n2 := 1+rng.Intn(7), 1+rng.Intn(7)
+		pre, post := rng.Intn(3), rng.Intn(4)
+		kind := b % 6
+		gap := 0
+		switch kind {
+		case 2:
+			gap = 1 + rng.Intn(2)
+		case 3: // overlap
+			gap = -(1 + rng.Intn(min(n1, n2)))
+		}
+		total := pre + n1 + gap + n2 + post
+		vals := 2 + rng.Intn(2*(n1+n2))
+		if b%3 == 0 {
+			vals = 1000
+		}
+		buf := make([]int, total)
+		for i := range buf {
+			buf[i] = rng.Intn(vals) - vals/3
+		}
+		a0, a1 := pre, pre+n1
+		b0, b1 := a1+gap, a1+gap+n2
+		if kind == 4 { // x2 in front of x1
+			a0, a1, b0, b1 = b0, b1, a0, a1
+		}
+		if kind == 5 { // the very same slice twice
+			b0, b1 = a0, a1
+		}
+		clip := rng.Bool() // clip the capacity of the windows (no spare capacity) or leave it open
+		x1, x2 := append([]int(nil), buf[a0:a1]...), append([]int(nil), buf[b0:b1]...)
+		layoutHook = func() ([]float64, []float64, []float64) {
+			fb := floats(buf, 4)
+			if clip {
+				return fb[a0:a1:a1], fb[b0:b1:b1], fb
+			}
+			if kind == 5 {
+				s := fb[a0:a1]
+				return s, s, fb
+			}
+			return fb[a0:a1], fb[b0:b1], fb
+		}
+		lim, limT := defLim, defLimT
+		if b%4 == 1 {
+			lim, limT = 2+rng.Intn(5), 1+rng.Intn(4)
+		}
+		tag := []string{"alias", []string{"adjacent", "adjacent", "gap", "overlap", "swapped", "same"}[kind]}
+		if !clip {
+			tag = append(tag, "sparecap")
+		}
+		mwAuto(x1, x2, 4, lim, limT, tag...)
+		layoutHook = nil
 	}
 }
 
